@@ -1,7 +1,433 @@
-//! C03 operations (op names start with `c03.`)
-#[allow(unused_imports)]
+//! C03 — multiplication and squaring (op names start with `c03.`)
+//!
+//! `c03.l.*`  Limb ops            `c03.u.* n m x y` / `c03.u.* n x`  fixed `Uint`
+//! `c03.i.*`  fixed `Int`          `c03.b.*`  `BoxedUint`
+//!
+//! Forwarding forms (trait methods, operators by value / by reference / assigning, `Wrapping`,
+//! `Checked`) are all evaluated and must agree; a disagreement prints `forms-differ:…`.
 use crate::util::*;
+use crypto_bigint::{
+    BoxedUint, Checked, CheckedMul, Concat, ConcatMixed, Int, Limb, Uint, WideningMul, Wrapping, WrappingMul,
+};
+use std::panic::{AssertUnwindSafe, catch_unwind};
 
-pub fn dispatch(_op: &str, _a: &[&str]) -> Option<String> {
-    None
+/// evaluate one form; a panic inside it is the result `panic`
+fn form<F: FnOnce() -> String>(f: F) -> String {
+    match catch_unwind(AssertUnwindSafe(f)) {
+        Ok(s) => s,
+        Err(_) => "panic".to_string(),
+    }
+}
+
+fn agree(forms: Vec<String>) -> String {
+    if forms.iter().all(|f| *f == forms[0]) { forms[0].clone() } else { format!("forms-differ:{}", forms.join("|")) }
+}
+
+fn opt<T>(o: Option<T>, p: impl Fn(&T) -> String) -> String {
+    o.map(|v| p(&v)).unwrap_or("none".into())
+}
+
+// ---------------------------------------------------------------- Limb
+
+fn limb_ops(op: &str, a: &[&str]) -> Option<String> {
+    Some(match (op, a) {
+        ("c03.l.mac", [x, y, z, c]) => {
+            let (r, c) = arg!(limb(x)).mac(arg!(limb(y)), arg!(limb(z)), arg!(limb(c)));
+            format!("{} {}", lhex(r), lhex(c))
+        }
+        ("c03.l.saturating_mul", [x, y]) => lhex(arg!(limb(x)).saturating_mul(arg!(limb(y)))),
+        ("c03.l.wrapping_mul", [x, y]) => {
+            let (x, y) = (arg!(limb(x)), arg!(limb(y)));
+            let mut w = Wrapping(x);
+            w *= Wrapping(y);
+            let mut w2 = Wrapping(x);
+            w2 *= &Wrapping(y);
+            agree(vec![
+                lhex(x.wrapping_mul(y)),
+                lhex(WrappingMul::wrapping_mul(&x, &y)),
+                lhex((Wrapping(x) * Wrapping(y)).0),
+                lhex((Wrapping(x) * &Wrapping(y)).0),
+                lhex((&Wrapping(x) * Wrapping(y)).0),
+                lhex((&Wrapping(x) * &Wrapping(y)).0),
+                lhex(w.0),
+                lhex(w2.0),
+            ])
+        }
+        ("c03.l.checked_mul", [x, y]) => {
+            let r: Option<Limb> = arg!(limb(x)).checked_mul(&arg!(limb(y))).into();
+            opt(r, |v| lhex(*v))
+        }
+        ("c03.l.checked_ops", [x, y]) => {
+            let (x, y) = (Checked::new(arg!(limb(x))), Checked::new(arg!(limb(y))));
+            let p = |c: Checked<Limb>| opt(Option::<Limb>::from(c.0), |v| lhex(*v));
+            let mut w = x;
+            w *= y;
+            let mut w2 = x;
+            w2 *= &y;
+            agree(vec![p(x * y), p(x * &y), p(&x * y), p(&x * &y), p(w), p(w2)])
+        }
+        ("c03.l.mul_ops", [x, y]) => {
+            let (x, y) = (arg!(limb(x)), arg!(limb(y)));
+            agree(vec![
+                form(|| lhex(x * y)),
+                form(|| lhex(x * &y)),
+                form(|| lhex(&x * y)),
+                form(|| lhex(&x * &y)),
+            ])
+        }
+        _ => return None,
+    })
+}
+
+// ---------------------------------------------------------------- fixed Uint
+
+fn u_mixed<const N: usize, const M: usize>(op: &str, a: &[&str]) -> Option<String> {
+    let [x, y] = a else { return Some(BAD.into()) };
+    let (x, y) = (arg!(uint::<N>(x)), arg!(uint::<M>(y)));
+    Some(match op {
+        "c03.u.split_mul" => {
+            let (lo, hi) = x.split_mul(&y);
+            format!("{} {}", uhex(&lo), uhex(&hi))
+        }
+        "c03.u.wrapping_mul" => uhex(&x.wrapping_mul(&y)),
+        "c03.u.saturating_mul" => uhex(&x.saturating_mul(&y)),
+        "c03.u.checked_mul" => {
+            let r: Option<Uint<N>> = x.checked_mul(&y).into();
+            opt(r, uhex)
+        }
+        "c03.u.mul_ops" => {
+            let mut forms = vec![
+                form(|| uhex(&(x * y))),
+                form(|| uhex(&(x * &y))),
+                form(|| uhex(&(&x * y))),
+                form(|| uhex(&(&x * &y))),
+            ];
+            forms.push(form(|| {
+                let mut w = x;
+                w *= y;
+                uhex(&w)
+            }));
+            forms.push(form(|| {
+                let mut w = x;
+                w *= &y;
+                uhex(&w)
+            }));
+            agree(forms)
+        }
+        _ => return None,
+    })
+}
+
+/// forms that exist only for equal widths: `WrappingMul`, `Wrapping`, `Checked`, squarings
+fn u_eq<const N: usize>(op: &str, a: &[&str]) -> Option<String> {
+    Some(match (op, a) {
+        ("c03.u.wrapping_mul", [x, y]) => {
+            let (x, y) = (arg!(uint::<N>(x)), arg!(uint::<N>(y)));
+            let mut w = Wrapping(x);
+            w *= Wrapping(y);
+            let mut w2 = Wrapping(x);
+            w2 *= &Wrapping(y);
+            agree(vec![
+                uhex(&x.wrapping_mul(&y)),
+                uhex(&WrappingMul::wrapping_mul(&x, &y)),
+                uhex(&(Wrapping(x) * Wrapping(y)).0),
+                uhex(&(Wrapping(x) * &Wrapping(y)).0),
+                uhex(&(&Wrapping(x) * Wrapping(y)).0),
+                uhex(&(&Wrapping(x) * &Wrapping(y)).0),
+                uhex(&w.0),
+                uhex(&w2.0),
+            ])
+        }
+        ("c03.u.checked_ops", [x, y]) => {
+            let (x, y) = (Checked::new(arg!(uint::<N>(x))), Checked::new(arg!(uint::<N>(y))));
+            let p = |c: Checked<Uint<N>>| opt(Option::<Uint<N>>::from(c.0), uhex);
+            let mut w = x;
+            w *= y;
+            let mut w2 = x;
+            w2 *= &y;
+            agree(vec![p(x * y), p(x * &y), p(&x * y), p(&x * &y), p(w), p(w2)])
+        }
+        ("c03.u.square_wide", [x]) => {
+            let (lo, hi) = arg!(uint::<N>(x)).square_wide();
+            format!("{} {}", uhex(&lo), uhex(&hi))
+        }
+        ("c03.u.wrapping_square", [x]) => uhex(&arg!(uint::<N>(x)).wrapping_square()),
+        ("c03.u.saturating_square", [x]) => uhex(&arg!(uint::<N>(x)).saturating_square()),
+        ("c03.u.checked_square", [x]) => {
+            let r: Option<Uint<N>> = arg!(uint::<N>(x)).checked_square().into();
+            opt(r, uhex)
+        }
+        (_, [_, _]) => return u_mixed::<N, N>(op, a),
+        _ => return None,
+    })
+}
+
+/// widening forms, `N + M = W` with a `ConcatMixed` impl
+fn u_wide<const N: usize, const M: usize, const W: usize>(op: &str, a: &[&str]) -> Option<String>
+where
+    Uint<N>: ConcatMixed<Uint<M>, MixedOutput = Uint<W>>,
+{
+    Some(match (op, a) {
+        ("c03.u.widening_mul", [x, y]) => {
+            let (x, y) = (arg!(uint::<N>(x)), arg!(uint::<M>(y)));
+            agree(vec![
+                uhex(&x.widening_mul(&y)),
+                uhex(&WideningMul::widening_mul(&x, y)),
+                uhex(&WideningMul::widening_mul(&x, &y)),
+            ])
+        }
+        ("c03.i.widening_mul", [x, y]) => {
+            let (x, y) = (arg!(int::<N>(x)), arg!(int::<M>(y)));
+            ihex(&x.widening_mul(&y))
+        }
+        _ => return None,
+    })
+}
+
+/// `widening_square` / `square`, `2N = W`
+fn u_wide_sq<const N: usize, const W: usize>(op: &str, a: &[&str]) -> Option<String>
+where
+    Uint<N>: ConcatMixed<Uint<N>, MixedOutput = Uint<W>> + Concat<Output = Uint<W>>,
+{
+    Some(match (op, a) {
+        ("c03.u.widening_square", [x]) => {
+            let x = arg!(uint::<N>(x));
+            agree(vec![uhex(&x.widening_square()), uhex(&x.square())])
+        }
+        ("c03.i.widening_square", [x]) => uhex(&arg!(int::<N>(x)).widening_square()),
+        (_, [_, _]) => return u_wide::<N, N, W>(op, a),
+        _ => return None,
+    })
+}
+
+// ---------------------------------------------------------------- fixed Int
+
+fn i_mixed<const N: usize, const M: usize>(op: &str, a: &[&str]) -> Option<String> {
+    let [x, y] = a else { return Some(BAD.into()) };
+    let (x, y) = (arg!(int::<N>(x)), arg!(int::<M>(y)));
+    Some(match op {
+        "c03.i.split_mul" => {
+            let (lo, hi, neg) = x.split_mul(&y);
+            format!("{} {} {}", uhex(&lo), uhex(&hi), cchoice(neg))
+        }
+        "c03.i.checked_mul" => {
+            let r: Option<Int<N>> = x.checked_mul(&y).into();
+            opt(r, ihex)
+        }
+        "c03.i.mul_ops" => agree(vec![
+            form(|| ihex(&(x * y))),
+            form(|| ihex(&(x * &y))),
+            form(|| ihex(&(&x * y))),
+            form(|| ihex(&(&x * &y))),
+        ]),
+        _ => return None,
+    })
+}
+
+fn i_eq<const N: usize>(op: &str, a: &[&str]) -> Option<String> {
+    Some(match (op, a) {
+        ("c03.i.checked_ops", [x, y]) => {
+            let (x, y) = (Checked::new(arg!(int::<N>(x))), Checked::new(arg!(int::<N>(y))));
+            let p = |c: Checked<Int<N>>| opt(Option::<Int<N>>::from(c.0), ihex);
+            let mut w = x;
+            w *= y;
+            let mut w2 = x;
+            w2 *= &y;
+            agree(vec![p(x * y), p(x * &y), p(&x * y), p(&x * &y), p(w), p(w2)])
+        }
+        ("c03.i.wrapping_square", [x]) => uhex(&arg!(int::<N>(x)).wrapping_square()),
+        ("c03.i.saturating_square", [x]) => uhex(&arg!(int::<N>(x)).saturating_square()),
+        ("c03.i.checked_square", [x]) => {
+            let r: Option<Uint<N>> = arg!(int::<N>(x)).checked_square().into();
+            opt(r, uhex)
+        }
+        (_, [_, _]) => return i_mixed::<N, N>(op, a),
+        _ => return None,
+    })
+}
+
+// ---------------------------------------------------------------- width tables
+
+const UNSUP: &str = "unsupported-width";
+
+/// equal widths: 1..=12 and every Karatsuba dispatch width 16, 32, 64, 128
+macro_rules! eq_widths {
+    ($n:expr, $f:ident, $op:expr, $a:expr) => {
+        match $n {
+            1 => $f::<1>($op, $a),
+            2 => $f::<2>($op, $a),
+            3 => $f::<3>($op, $a),
+            4 => $f::<4>($op, $a),
+            5 => $f::<5>($op, $a),
+            6 => $f::<6>($op, $a),
+            7 => $f::<7>($op, $a),
+            8 => $f::<8>($op, $a),
+            9 => $f::<9>($op, $a),
+            10 => $f::<10>($op, $a),
+            11 => $f::<11>($op, $a),
+            12 => $f::<12>($op, $a),
+            16 => $f::<16>($op, $a),
+            32 => $f::<32>($op, $a),
+            64 => $f::<64>($op, $a),
+            128 => $f::<128>($op, $a),
+            _ => Some(UNSUP.to_string()),
+        }
+    };
+}
+
+/// mixed (lhs, rhs) widths
+macro_rules! mixed_widths {
+    ($n:expr, $m:expr, $f:ident, $op:expr, $a:expr) => {
+        match ($n, $m) {
+            (1, 2) => $f::<1, 2>($op, $a),
+            (2, 1) => $f::<2, 1>($op, $a),
+            (3, 1) => $f::<3, 1>($op, $a),
+            (2, 4) => $f::<2, 4>($op, $a),
+            (4, 2) => $f::<4, 2>($op, $a),
+            (3, 5) => $f::<3, 5>($op, $a),
+            (5, 3) => $f::<5, 3>($op, $a),
+            (4, 8) => $f::<4, 8>($op, $a),
+            (8, 4) => $f::<8, 4>($op, $a),
+            (1, 8) => $f::<1, 8>($op, $a),
+            (7, 2) => $f::<7, 2>($op, $a),
+            (6, 10) => $f::<6, 10>($op, $a),
+            (12, 4) => $f::<12, 4>($op, $a),
+            (16, 8) => $f::<16, 8>($op, $a),
+            (8, 16) => $f::<8, 16>($op, $a),
+            (16, 32) => $f::<16, 32>($op, $a),
+            (32, 16) => $f::<32, 16>($op, $a),
+            (64, 32) => $f::<64, 32>($op, $a),
+            _ => Some(UNSUP.to_string()),
+        }
+    };
+}
+
+fn wide_sq(n: usize, op: &str, a: &[&str]) -> Option<String> {
+    match n {
+        1 => u_wide_sq::<1, 2>(op, a),
+        2 => u_wide_sq::<2, 4>(op, a),
+        3 => u_wide_sq::<3, 6>(op, a),
+        4 => u_wide_sq::<4, 8>(op, a),
+        5 => u_wide_sq::<5, 10>(op, a),
+        6 => u_wide_sq::<6, 12>(op, a),
+        7 => u_wide_sq::<7, 14>(op, a),
+        8 => u_wide_sq::<8, 16>(op, a),
+        12 => u_wide_sq::<12, 24>(op, a),
+        16 => u_wide_sq::<16, 32>(op, a),
+        32 => u_wide_sq::<32, 64>(op, a),
+        64 => u_wide_sq::<64, 128>(op, a),
+        128 => u_wide_sq::<128, 256>(op, a),
+        _ => Some(UNSUP.to_string()),
+    }
+}
+
+fn wide_mixed(n: usize, m: usize, op: &str, a: &[&str]) -> Option<String> {
+    match (n, m) {
+        (1, 2) => u_wide::<1, 2, 3>(op, a),
+        (2, 1) => u_wide::<2, 1, 3>(op, a),
+        (3, 1) => u_wide::<3, 1, 4>(op, a),
+        (2, 4) => u_wide::<2, 4, 6>(op, a),
+        (4, 2) => u_wide::<4, 2, 6>(op, a),
+        (3, 5) => u_wide::<3, 5, 8>(op, a),
+        (5, 3) => u_wide::<5, 3, 8>(op, a),
+        (4, 8) => u_wide::<4, 8, 12>(op, a),
+        (8, 4) => u_wide::<8, 4, 12>(op, a),
+        (1, 8) => u_wide::<1, 8, 9>(op, a),
+        (7, 2) => u_wide::<7, 2, 9>(op, a),
+        (6, 10) => u_wide::<6, 10, 16>(op, a),
+        (12, 4) => u_wide::<12, 4, 16>(op, a),
+        _ => Some(UNSUP.to_string()),
+    }
+}
+
+// ---------------------------------------------------------------- BoxedUint
+
+fn boxed_ops(op: &str, a: &[&str]) -> Option<String> {
+    if let ("c03.b.square", [n, x]) = (op, a) {
+        let x = arg!(boxed(x, arg!(dec(n))));
+        return Some(bhexlen(&x.square()));
+    }
+    let [n, m, x, y] = a else { return Some(BAD.into()) };
+    let (x, y) = (arg!(boxed(x, arg!(dec(n)))), arg!(boxed(y, arg!(dec(m)))));
+    Some(match op {
+        // inherent mul, by-value operators (widening), WideningMul, MulAssign
+        "c03.b.mul" => {
+            let mut w = x.clone();
+            w *= y.clone();
+            let mut w2 = x.clone();
+            w2 *= &y;
+            agree(vec![
+                bhexlen(&x.mul(&y)),
+                bhexlen(&(x.clone() * y.clone())),
+                bhexlen(&(x.clone() * &y)),
+                bhexlen(&(&x * y.clone())),
+                bhexlen(&WideningMul::widening_mul(&x, y.clone())),
+                bhexlen(&WideningMul::widening_mul(&x, &y)),
+                bhexlen(&w),
+                bhexlen(&w2),
+            ])
+        }
+        // `&a * &b` is the checked (panicking) form
+        "c03.b.mul_ref" => bhexlen(&(&x * &y)),
+        "c03.b.wrapping_mul" => {
+            let mut w = Wrapping(x.clone());
+            w *= Wrapping(y.clone());
+            let mut w2 = Wrapping(x.clone());
+            w2 *= &Wrapping(y.clone());
+            agree(vec![
+                bhexlen(&x.wrapping_mul(&y)),
+                bhexlen(&WrappingMul::wrapping_mul(&x, &y)),
+                bhexlen(&(Wrapping(x.clone()) * Wrapping(y.clone())).0),
+                bhexlen(&w.0),
+                bhexlen(&w2.0),
+            ])
+        }
+        "c03.b.checked_mul" => {
+            let r: Option<BoxedUint> = x.checked_mul(&y).into();
+            opt(r, bhexlen)
+        }
+        _ => return None,
+    })
+}
+
+pub fn dispatch(op: &str, a: &[&str]) -> Option<String> {
+    if op.starts_with("c03.l.") {
+        return limb_ops(op, a);
+    }
+    if op.starts_with("c03.b.") {
+        return boxed_ops(op, a);
+    }
+    let uns = op.starts_with("c03.u.");
+    if !uns && !op.starts_with("c03.i.") {
+        return None;
+    }
+    match a {
+        // unary: n x
+        [n, _x] => {
+            let n = arg!(dec(n));
+            let rest = &a[1..];
+            if op.ends_with(".widening_square") {
+                wide_sq(n, op, rest)
+            } else if uns {
+                eq_widths!(n, u_eq, op, rest)
+            } else {
+                eq_widths!(n, i_eq, op, rest)
+            }
+        }
+        // binary: n m x y
+        [n, m, _x, _y] => {
+            let (n, m) = (arg!(dec(n)), arg!(dec(m)));
+            let rest = &a[2..];
+            if op.ends_with(".widening_mul") {
+                if n == m { wide_sq(n, op, rest) } else { wide_mixed(n, m, op, rest) }
+            } else if n == m {
+                if uns { eq_widths!(n, u_eq, op, rest) } else { eq_widths!(n, i_eq, op, rest) }
+            } else if uns {
+                mixed_widths!(n, m, u_mixed, op, rest)
+            } else {
+                mixed_widths!(n, m, i_mixed, op, rest)
+            }
+        }
+        _ => Some(BAD.into()),
+    }
 }
